@@ -196,10 +196,18 @@ type bcReq struct {
 }
 
 type bcServer struct {
-	rec   *bcRec
-	ln    net.Listener
-	conn  net.Conn
-	connC chan net.Conn
+	rec  *bcRec
+	ln   net.Listener
+	conn net.Conn
+	// The server talks to exactly one peer: the connection dialled by the Broker under test (remote
+	// address = the Broker's local address) whose requests carry this case's unique client id. Any
+	// other connection - a client of another verification process redialling a recycled port, a
+	// straggler of an earlier case - is closed without being recorded.
+	clientID string
+	accMu    sync.Mutex
+	pending  map[string]net.Conn // accepted, not yet adopted, by remote address
+	adopted  bool
+	accC     chan struct{}
 	// guarded by rec.mu
 	unans  []bcReq
 	nrecv  int
@@ -219,23 +227,71 @@ func bcNewServer(rec *bcRec) (*bcServer, error) {
 	if err != nil {
 		return nil, err
 	}
-	s := &bcServer{rec: rec, ln: ln, connC: make(chan net.Conn, 1)}
+	s := &bcServer{rec: rec, ln: ln, pending: map[string]net.Conn{}, accC: make(chan struct{}, 1)}
 	go func() {
-		c, err := ln.Accept()
-		if err != nil {
-			close(s.connC)
-			return
+		for {
+			c, err := ln.Accept()
+			if err != nil {
+				return
+			}
+			s.accMu.Lock()
+			if s.adopted {
+				s.accMu.Unlock()
+				atomic.AddInt64(&bcStrangers, 1)
+				c.Close()
+				continue
+			}
+			s.pending[c.RemoteAddr().String()] = c
+			s.accMu.Unlock()
+			select {
+			case s.accC <- struct{}{}:
+			default:
+			}
 		}
-		s.connC <- c
-		s.readLoop(c)
 	}()
 	return s, nil
 }
+
+// adopt picks the accepted connection whose remote address is the Broker's local address and closes
+// every other one
+func (s *bcServer) adopt(brokerLocal string, timeout time.Duration) (net.Conn, error) {
+	deadline := time.After(timeout)
+	for {
+		s.accMu.Lock()
+		if c, ok := s.pending[brokerLocal]; ok {
+			delete(s.pending, brokerLocal)
+			for _, o := range s.pending {
+				atomic.AddInt64(&bcStrangers, 1)
+				o.Close()
+			}
+			s.pending = nil
+			s.adopted = true
+			s.accMu.Unlock()
+			go s.readLoop(c)
+			return c, nil
+		}
+		s.accMu.Unlock()
+		select {
+		case <-s.accC:
+		case <-deadline:
+			return nil, fmt.Errorf("server did not see the connection from %s", brokerLocal)
+		}
+	}
+}
+
+// bcStrangers counts connections / requests of peers other than the Broker under test
+var bcStrangers, bcCaseSeq int64
 
 func (s *bcServer) readLoop(c net.Conn) {
 	for {
 		req, _, err := decodeRequest(c)
 		if err != nil {
+			return
+		}
+		if req.clientID != s.clientID {
+			// not the Broker of this case: drop the connection, record nothing
+			atomic.AddInt64(&bcStrangers, 1)
+			c.Close()
 			return
 		}
 		tag, kind := "?", "?"
@@ -495,6 +551,13 @@ func (s *bcServer) answer(kind string) bool {
 
 func (s *bcServer) shutdown() {
 	s.ln.Close()
+	s.accMu.Lock()
+	for _, o := range s.pending {
+		o.Close()
+	}
+	s.pending = nil
+	s.adopted = true
+	s.accMu.Unlock()
 	if s.conn != nil {
 		s.conn.Close()
 	}
@@ -659,6 +722,8 @@ func bcRunCase(c *bcCase, hang time.Duration, st *bcStats) ([]bcEvent, error) {
 		conf.Net.WriteTimeout = time.Duration(c.WtMs) * time.Millisecond
 	}
 	conf.Net.DialTimeout = 3 * time.Second
+	conf.ClientID = fmt.Sprintf("verif-c14-%d-%d", os.Getpid(), atomic.AddInt64(&bcCaseSeq, 1))
+	srv.clientID = conf.ClientID
 	srv.hv, srv.rlen = c.Hv, c.Len
 	b := NewBroker(srv.ln.Addr().String())
 	bkey := fmt.Sprintf("%p", b)
@@ -670,17 +735,20 @@ func bcRunCase(c *bcCase, hang time.Duration, st *bcStats) ([]bcEvent, error) {
 	if ok, err := b.Connected(); !ok {
 		return nil, fmt.Errorf("broker did not connect: %v", err)
 	}
-	select {
-	case cn, ok := <-srv.connC:
-		if !ok {
-			return nil, fmt.Errorf("server accept failed")
-		}
-		rec.mu.Lock()
-		srv.conn = cn
-		rec.mu.Unlock()
-	case <-time.After(3 * time.Second):
-		return nil, fmt.Errorf("server did not see the connection")
+	b.lock.Lock()
+	local := ""
+	if b.conn != nil {
+		local = b.conn.LocalAddr().String()
 	}
+	b.lock.Unlock()
+	cn, err := srv.adopt(local, 3*time.Second)
+	if err != nil {
+		b.Close()
+		return nil, err
+	}
+	rec.mu.Lock()
+	srv.conn = cn
+	rec.mu.Unlock()
 
 	ncallers := 0
 	for _, s := range c.Steps {
@@ -1132,7 +1200,8 @@ func TestVerifBrokerConn(t *testing.T) {
 		"cases": st.cases, "skipped_after_many_hangs": skipped, "events": nev, "diverged": st.diverged, "calls": st.calls,
 		"ok_calls": st.okCalls, "err_calls": st.errCalls, "hangs": st.hangs,
 		"setup_retries": st.setupFailures, "panics_in_sarama_goroutines": atomic.LoadInt64(&bcPanics),
-		"unattributed_panics": len(lost),
-		"cases_by_source":     bySrc, "server_answers_by_kind": byKind, "samples": samples,
+		"unattributed_panics":                     len(lost),
+		"foreign_connections_or_requests_dropped": atomic.LoadInt64(&bcStrangers),
+		"cases_by_source":                         bySrc, "server_answers_by_kind": byKind, "samples": samples,
 	})
 }
